@@ -86,7 +86,7 @@ func main() {
 	a := common.ParseArgs()
 	run := common.NewRun(a, "C20", "HV.Addr.Name")
 	thorough := a.Tier == "thorough"
-	run.Meta.Rule = "address cases: a name triple (ASCII and multi-byte UTF-8, empty parts, parts containing '/', NUL, '*'; total length 0..300 crossing the 4/8/32-byte XXH64 regimes), an island count N in {1,2,10,999,1000,65535} or larger (SDK only), depth 0..10, folders per level in {1,2,16,255,256,1000,4096,65536}: island ids from fresh SDK and server name objects, the full hash path or its panic; plus reused-object (cache) cases, Load of arbitrary paths, separator-alias pairs and SDK routing-table lookups; non-trivial = key of 32+ bytes, non-ASCII/empty/separator parts, N >= 65536, depth*charsPerLevel beyond the hash string, or any cache/load/alias/route case"
+	run.Meta.Rule = "address cases: a name triple (ASCII and multi-byte UTF-8, empty parts, parts containing '/', NUL, '*'; total length 0..300 crossing the 4/8/32-byte XXH64 regimes), an island count N in {1,2,10,999,1000,65535} or larger (SDK only), depth 0..10, folders per level in {1,2,16,255,256,1000,4096,65536}: island ids from fresh SDK and server name objects, the full hash path or its panic; plus reused-object (cache) cases, Load of arbitrary paths, separator-alias pairs, SDK routing-table lookups and name-object programs (builder chains with shared prefix objects, island / path / Get queries on prefixes, siblings and the same object again, Load, out-of-order builder calls); non-trivial = key of 32+ bytes, non-ASCII/empty/separator parts, N >= 65536, depth*charsPerLevel beyond the hash string, or any cache/load/alias/route/program case"
 	slog.SetDefault(slog.New(slog.NewTextHandler(io.Discard, nil)))
 	rng := common.NewRng(a.Seed, "C20")
 
@@ -94,9 +94,9 @@ func main() {
 	bigNs := []uint64{65536, 1000000, 1 << 40, ^uint64(0)}
 	maxfs := []int{1, 2, 16, 255, 256, 1000, 4096, 65536}
 
-	nAddr, nLong, nCache, nLoad, nAlias, nRoute := 650, 40, 120, 120, 80, 150
+	nAddr, nLong, nCache, nLoad, nAlias, nRoute, nProg := 650, 40, 120, 120, 80, 150, 250
 	if thorough {
-		nAddr, nLong, nCache, nLoad, nAlias, nRoute = 12000, 600, 1500, 1500, 1000, 1500
+		nAddr, nLong, nCache, nLoad, nAlias, nRoute, nProg = 12000, 600, 1500, 1500, 1000, 1500, 4000
 	}
 
 	addr := func(t triple, n uint64, depth, maxf int, island uint64, kind string) {
@@ -294,6 +294,151 @@ func main() {
 		run.Add(common.App("CRoute", t.coq(), common.N(n), common.List(tt), optN(host)),
 			map[string]interface{}{"kind": "route", "name": t.human(), "islands": n, "servers": th, "routed_to": host}, true)
 		run.Hist("route")
+	}
+	// name-object programs: builders, shared prefixes, queries on prefixes / siblings / the same
+	// object again, Load, in any interleaving.  Server and SDK objects are built in lockstep.
+	for c := 0; c < nProg; c++ {
+		type objPair struct {
+			srv srvname.Name
+			sdk sdkname.Name
+		}
+		var objs []objPair
+		var terms []string
+		var hum []string
+		pathArgs := map[int][3]int{} // a path is always asked with the same arguments of one object
+		firstN := map[int]uint64{}
+		bl := func(s string) string { return common.ByteList([]byte(s)) }
+		part := func() string { return genPart(rng, 1+rng.Intn(5), rng.Chance(15)) }
+		newSanct := func() {
+			s := part()
+			objs = append(objs, objPair{srvname.New().Sanctuary(s), sdkname.New().Sanctuary(s)})
+			terms = append(terms, common.App("NSanct", bl(s)))
+			hum = append(hum, fmt.Sprintf("#%d = New().Sanctuary(%q)", len(objs)-1, s))
+		}
+		extend := func(i int, realm bool) {
+			x := part()
+			if realm {
+				objs = append(objs, objPair{objs[i].srv.Realm(x), objs[i].sdk.Realm(x)})
+				terms = append(terms, common.App("NRealm", common.Nat(i), bl(x)))
+				hum = append(hum, fmt.Sprintf("#%d = #%d.Realm(%q)", len(objs)-1, i, x))
+			} else {
+				objs = append(objs, objPair{objs[i].srv.Swamp(x), objs[i].sdk.Swamp(x)})
+				terms = append(terms, common.App("NSwamp", common.Nat(i), bl(x)))
+				hum = append(hum, fmt.Sprintf("#%d = #%d.Swamp(%q)", len(objs)-1, i, x))
+			}
+		}
+		island := func(i int) {
+			n, seen := firstN[i]
+			if !seen || rng.Chance(12) { // 12%: a changed N on a used object (the known stale-cache class)
+				n = ns[rng.Intn(len(ns))]
+				if rng.Chance(15) {
+					n = bigNs[rng.Intn(len(bigNs))]
+				}
+			}
+			if !seen {
+				firstN[i] = n
+			}
+			sdk := objs[i].sdk.GetIslandID(n)
+			var srv *uint64
+			if n < 65536 {
+				v := uint64(objs[i].srv.GetFolderNumber(uint16(n)))
+				srv = &v
+			}
+			terms = append(terms, common.App("NIsland", common.Nat(i), common.N(n), common.N(sdk), optN(srv)))
+			h := fmt.Sprintf("#%d.GetIslandID(%d) = %d", i, n, sdk)
+			if srv != nil {
+				h += fmt.Sprintf(", GetFolderNumber = %d", *srv)
+			}
+			hum = append(hum, h)
+		}
+		path := func(i int) {
+			a, ok := pathArgs[i]
+			if !ok {
+				a = [3]int{1 + rng.Intn(50), rng.Intn(5), maxfs[rng.Intn(len(maxfs))]}
+				pathArgs[i] = a
+			}
+			var res *string
+			func() {
+				defer func() {
+					if recover() != nil {
+						res = nil
+					}
+				}()
+				v := objs[i].srv.GetFullHashPath("/r", uint64(a[0]), a[1], a[2])
+				res = &v
+			}()
+			terms = append(terms, common.App("NPath", common.Nat(i), common.N(uint64(a[0])), common.Nat(a[1]), common.N(uint64(a[2])), optStr(res)))
+			if res != nil {
+				hum = append(hum, fmt.Sprintf("#%d.GetFullHashPath(/r,%d,%d,%d) = %s", i, a[0], a[1], a[2], *res))
+			} else {
+				hum = append(hum, fmt.Sprintf("#%d.GetFullHashPath(/r,%d,%d,%d) panicked", i, a[0], a[1], a[2]))
+			}
+		}
+		get := func(i int) {
+			terms = append(terms, common.App("NGet", common.Nat(i), bl(objs[i].sdk.Get()), bl(objs[i].srv.Get())))
+			hum = append(hum, fmt.Sprintf("#%d.Get() = %q", i, objs[i].srv.Get()))
+		}
+		query := func(i int) {
+			switch rng.Intn(5) {
+			case 0, 1, 2:
+				island(i)
+			case 3:
+				path(i)
+			default:
+				get(i)
+			}
+		}
+		newSanct()
+		steps := 8 + rng.Intn(14)
+		if c == 0 { // sanctuary and realm prefixes queried, then extended into two swamps
+			steps = 0
+			island(0)
+			extend(0, true)
+			island(1)
+			path(1)
+			extend(1, false)
+			island(2)
+			path(2)
+			extend(1, false)
+			island(3)
+			island(2)
+		}
+		for k := 0; k < steps; k++ {
+			switch r := rng.Intn(100); {
+			case r < 8:
+				newSanct()
+			case r < 14:
+				var parts []string
+				for q := 0; q < 3+rng.Intn(2); q++ {
+					parts = append(parts, genPart(rng, 1+rng.Intn(4), false))
+				}
+				p := strings.Join(parts, "/")
+				objs = append(objs, objPair{srvname.Load(p), sdkname.Load(p)})
+				terms = append(terms, common.App("NLoad", bl(p)))
+				hum = append(hum, fmt.Sprintf("#%d = Load(%q)", len(objs)-1, p))
+			case r < 45:
+				// extend an existing object (usually in builder order; sometimes a Realm/Swamp
+				// call on an object that already has one)
+				i := rng.Intn(len(objs))
+				extend(i, rng.Chance(40))
+			default:
+				i := rng.Intn(len(objs))
+				if rng.Chance(50) {
+					i = len(objs) - 1 // the newest object, right after it was derived
+				}
+				query(i)
+			}
+		}
+		// finally every object answers once more
+		for i := range objs {
+			island(i)
+			if rng.Chance(50) {
+				path(i)
+			}
+		}
+		run.Add(common.App("CProg", common.List(terms)), map[string]interface{}{"kind": "name-object program", "steps": hum}, true)
+		run.Hist("prog")
+		run.HistN("prog_steps", len(terms))
 	}
 	run.Shard = (run.Meta.Evaluations + 7) / 8
 	run.Meta.Traces = run.Meta.Evaluations
